@@ -178,7 +178,8 @@ Lemma c05_tstype_attr_kept rec orc m off :
 Proof.
   intros H. unfold wf_kmsg in H. apply andb_prop in H. destruct H as [Hc Hcodec].
   rewrite dec_message_spec by assumption. unfold dec_payload.
-  apply Z.eqb_eq in Hcodec. unfold ATTRIBUTE_CODEC_MASK. rewrite Hcodec. change (0 =? CODEC_NONE) with true. cbv iota.
+  apply Z.eqb_eq in Hcodec. apply land7_land3 in Hcodec. cbn [Z.land] in Hcodec.
+  unfold ATTRIBUTE_CODEC_MASK. rewrite Hcodec. change (0 =? CODEC_NONE) with true. cbv iota.
   eexists. split; [reflexivity|]. reflexivity.
 Qed.
 
